@@ -44,6 +44,36 @@ def run(ck):
                     ck.violation("tokens differ from the WHATWG reference (golden table)",
                                  {"kind": "failing-input", "oracle": "golden", "case": T.describe(c), "impl": a[:800], "reference": g[:800]},
                                  case_class="golden-diff")
+    # second oracle: an independent transcription of WHATWG 13.2.5 (lib/whatwg_tok.py, written from the standard, not from
+    # the code or the translated tables) on the concatenated input: tokens without parse errors and line numbers
+    import whatwg_tok as W
+    wfail = wsup = 0
+    if model is not None:
+        dec = lambda w: "".join(chr(int(x)) for x in w.split())
+        for c, a in zip(allc, impl):
+            f = c.split("|")
+            ex_, bom_, foreign_ = [int(x) for x in f[1].split()]
+            try:
+                exp = W.tokenize_case("".join(T.case_text(c)), state=f[2], last=dec(f[3]), resp=f[4], inject=dec(f[5]),
+                                      foreign=bool(foreign_), bom=bool(bom_))
+            except Exception as e:      # noqa  (a crash of the oracle is a broken check, not a finding)
+                ck.broken.append("whatwg_tok.py failed on %s: %r" % (json.dumps(T.describe(c), ensure_ascii=True)[:300], e))
+                break
+            if exp is None:
+                continue
+            wsup += 1
+            o = T.obs(a, keep_errors=False, keep_lines=False, keep_log=False)
+            got = [b for b, _ in o[0]] if o[0] != "RAW" else ["RAW"]
+            if got != exp:
+                wfail += 1
+                if wfail <= 3:
+                    k = next((i for i, (x, y) in enumerate(zip(got, exp)) if x != y), min(len(got), len(exp)))
+                    ck.violation("tokens differ from the WHATWG tokenization algorithm (independent transcription)",
+                                 {"kind": "failing-input", "oracle": "whatwg_tok", "case": T.describe(c), "first_difference_at_token": k,
+                                  "impl": got[max(0, k - 2):k + 3], "whatwg": exp[max(0, k - 2):k + 3]},
+                                 case_class="whatwg-diff")
+    ck.cov["whatwg_oracle_cases"] = wsup
+    ck.cov["whatwg_oracle_failures"] = wfail
     ck.cov.update({
         "evaluations": len(corr) + 2 * len(cells), "distinct_nontrivial": len(set(corr)) + len(set(cells)),
         "rule": "grammar-generated html in %d start states x options x scripted sink answers, plus a sweep of every (state, character "
@@ -53,5 +83,6 @@ def run(ck):
         "explanation": "Props/C01.v (partial): regenerated table = golden table cell for cell + structural facts; the full refinement "
                        "statement against an independent WHATWG interpreter is not proved; tie = translator + correspondence.",
     })
-    return ck.finish(trusted=K.TRUSTED + ["coq/Golden/GoldenHtmlTok.v: snapshot of the translated table audited by reading against WHATWG 13.2.5"],
+    return ck.finish(trusted=K.TRUSTED + ["coq/Golden/GoldenHtmlTok.v: snapshot of the translated table audited by reading against WHATWG 13.2.5",
+                                          "lib/whatwg_tok.py: independent Python transcription of WHATWG 13.2.5 (entity table: CPython html.entities.html5)"],
                      assumptions=["the golden table is a faithful transcription of WHATWG tokenization (audit by reading; no machine-readable spec offline)"])
